@@ -15,19 +15,24 @@ class InjectedAbort(BaseException):
 
 
 class Plan:
-    def __init__(self, k=None, action=None, err=errno.EIO):
+    def __init__(self, k=None, action=None, err=errno.EIO, sticky=False):
         self.k = k
         self.action = action  # None | "raise" | "exit"
         self.err = err
         self.count = 0
         self.ops = []
         self.fired = None
+        self.sticky = sticky  # the failing KIND of operation keeps failing (a file system that cannot rename, a device that stays full)
+        self.refired = 0
 
     def op(self, name, detail=None):
         self.count += 1
         self.ops.append(name)
         if self.k is not None and self.count == self.k and self.fired is None:
             self.fired = (self.count, name)
+            return True
+        if self.sticky and self.fired is not None and self.action == "raise" and name == self.fired[1]:
+            self.refired += 1
             return True
         return False
 
